@@ -6,7 +6,7 @@
      def wait(deferred):                                   [wait_top]
          seen = []
          while isinstance(deferred, BaseDeferred):
-             if len(seen) >= 1000 or any(deferred is prev for prev in seen):
+             if len(seen) >= BOUND or any(deferred is prev for prev in seen):
                  raise DeferredCycle()
              seen.append(deferred)
              deferred = deferred.wait()
@@ -88,7 +88,7 @@ Fixpoint eval_deps (rec : state -> nat -> res) (deps : list nat) (acc : list Z) 
   end.
 
 Section Wait.
-  Variable bound : nat.        (* 1000 in deferred.py; 0 would be the pre-fix loop without the length check *)
+  Variable bound : nat.        (* the literal in `len(seen) >= N` of deferred.wait: Gen/GenPartial.v wait_seen_bound *)
   Variable spec : bool.        (* try_compute.depth > 0 *)
   Variable G : graph.
 
@@ -150,5 +150,3 @@ Definition try_wait (bound : nat) (G : graph) (fuel : nat) (st : state) (i : nat
 
 (* fuel that always suffices (Proofs/WaitP.v: wait_terminates) *)
 Definition fuel_bound (bound : nat) (G : graph) : nat := (length G) * (bound + 2) + (bound + 2).
-
-Definition py_bound : nat := 1000.
